@@ -264,16 +264,7 @@ func c04(c *Ctx) {
 				if loop == nil || loop[run.Block()] {
 					continue // not in a loop of its own below the step loop
 				}
-				_, early := cfgx.OnlyHeaderExits(loop)
-				bad := ""
-				for _, e := range early {
-					for _, r := range cfgx.ReturnsReachable([]cfgx.Edge{e}, nil) {
-						if nonNilError(r) != "nonnil" {
-							bad = c.pos(firstPos(e.From))
-						}
-					}
-				}
-				c.R.Check(bad == "", load.FuncName(fc)+": every credential of the step", c.pos(mu.Pos()), "the loop over the step's credentials ends early only with an error", "the loop over the step's credentials can be left early (at "+bad+") without an error: credentials listed after that entry are never loaded")
+				c.loopVisitsAll(fc, loop, load.FuncName(fc)+": every credential of the step", "the loop over the step's credentials ends early only with an error", "the loop over the step's credentials can be left early without an error: credentials listed after that entry are never loaded")
 			}
 		}
 		// own credentials only: the map a step's credentials are stored in is
@@ -651,6 +642,41 @@ func c04(c *Ctx) {
 		}
 		for _, p := range r.Problems {
 			c.R.Bad(load.FuncName(f)+": "+p.What, c.pos(p.Instr.Pos()), p.What)
+		}
+	}
+
+	c.R.Rule("R4.8", "existing composed resources are read by the namespace and name of their reference", 2,
+		"a namespaced composed resource read without its namespace is not found: it is missing from the observed state every step receives (and is re-created under a new name)")
+	if ob := c.method(pkgComposite, "ExistingComposedResourceObserver", "ObserveComposedResources"); ob != nil {
+		gets := calls(ob, clientGet)
+		if len(gets) == 0 {
+			c.R.Unknown(load.FuncName(ob)+": Get", c.pos(ob.Pos()), "no client.Get of a referenced resource found")
+		}
+		for _, g := range gets {
+			key := cfgx.CallArgs(g)[1]
+			var alloc *ssa.Alloc
+			if ld, ok := key.(*ssa.UnOp); ok {
+				alloc, _ = ld.X.(*ssa.Alloc)
+			}
+			got := map[string]string{}
+			var roots []ssa.Value
+			if alloc != nil && alloc.Referrers() != nil {
+				for _, r := range *alloc.Referrers() {
+					fa, ok := r.(*ssa.FieldAddr)
+					if !ok || fa.Referrers() == nil {
+						continue
+					}
+					for _, u := range *fa.Referrers() {
+						if st, ok := u.(*ssa.Store); ok && st.Addr == ssa.Value(fa) {
+							rt, p, _ := flow.AccessPathC(st.Val)
+							got[fieldName(fa.X.Type(), fa.Field)] = p
+							roots = append(roots, rt)
+						}
+					}
+				}
+			}
+			same := len(roots) == 2 && roots[0] == roots[1]
+			c.R.Check(same && strings.HasSuffix(got["Namespace"], "Namespace") && strings.HasSuffix(got["Name"], "Name") && !strings.HasSuffix(got["Name"], "Namespace"), site(g)+" key", c.pos(g.Pos()), "the key is {Namespace: ref.Namespace, Name: ref.Name} of one reference", "the referenced resource is not read by the namespace and name of its reference (Namespace="+got["Namespace"]+", Name="+got["Name"]+")")
 		}
 	}
 
